@@ -104,57 +104,75 @@ impl<R: Read> GenomeIO<R> {
     }
 
     /// Read next contig preserving raw format (including newlines)
+    ///
+    /// Blank lines before a header and records without any sequence line are skipped; they used
+    /// to be reported as end-of-input, which silently dropped the rest of the file.
     pub fn read_contig_raw(&mut self) -> io::Result<Option<(String, Contig)>> {
-        let reader = match &mut self.reader {
-            Some(r) => r,
-            None => return Ok(None),
-        };
-
-        let mut contig = Contig::new();
-
-        // Read ID line (starts with '>')
-        // Check if we have a buffered header from previous read
-        let header_line = if let Some(buffered) = self.next_header.take() {
-            buffered
-        } else {
-            self.buffer.clear();
-            let bytes_read = reader.read_until(b'\n', &mut self.buffer)?;
-            if bytes_read == 0 {
-                return Ok(None);
-            }
-            self.buffer.clone()
-        };
-
-        // Extract ID (skip '>' and trim whitespace)
-        let id_line = String::from_utf8_lossy(&header_line);
-        let id = id_line.trim_start_matches('>').trim().to_string();
-
-        // Read sequence data until next '>' or EOF
         loop {
-            self.buffer.clear();
-            let bytes_read = reader.read_until(b'\n', &mut self.buffer)?;
+            let reader = match &mut self.reader {
+                Some(r) => r,
+                None => return Ok(None),
+            };
 
-            if bytes_read == 0 {
-                // EOF reached
-                break;
+            let mut contig = Contig::new();
+
+            // Read ID line (starts with '>')
+            // Check if we have a buffered header from previous read
+            let header_line = if let Some(buffered) = self.next_header.take() {
+                buffered
+            } else {
+                self.buffer.clear();
+                let bytes_read = reader.read_until(b'\n', &mut self.buffer)?;
+                if bytes_read == 0 {
+                    return Ok(None);
+                }
+                self.buffer.clone()
+            };
+
+            // Extract ID (skip '>' and trim whitespace)
+            let id_line = String::from_utf8_lossy(&header_line);
+            let id = id_line.trim_start_matches('>').trim().to_string();
+
+            // A blank line where a header is expected (e.g. leading blank lines): not a record
+            if id.is_empty() && !header_line.starts_with(b">") {
+                continue;
             }
 
-            // Check if this is the start of a new contig
-            if !self.buffer.is_empty() && self.buffer[0] == b'>' {
-                // Save this header for the next read
-                self.next_header = Some(self.buffer.clone());
-                break;
+            // Read sequence data until next '>' or EOF
+            loop {
+                self.buffer.clear();
+                let bytes_read = reader.read_until(b'\n', &mut self.buffer)?;
+
+                if bytes_read == 0 {
+                    // EOF reached
+                    break;
+                }
+
+                // Check if this is the start of a new contig
+                if !self.buffer.is_empty() && self.buffer[0] == b'>' {
+                    // Save this header for the next read
+                    self.next_header = Some(self.buffer.clone());
+                    break;
+                }
+
+                // Append sequence data
+                contig.extend_from_slice(&self.buffer);
             }
 
-            // Append sequence data
-            contig.extend_from_slice(&self.buffer);
-        }
+            if contig.is_empty() {
+                // Record without sequence: nothing to store, keep reading
+                continue;
+            }
 
-        if id.is_empty() || contig.is_empty() {
-            return Ok(None);
-        }
+            if id.is_empty() {
+                return Err(io::Error::new(
+                    io::ErrorKind::InvalidData,
+                    "FASTA record with sequence but without a name",
+                ));
+            }
 
-        Ok(Some((id, contig)))
+            return Ok(Some((id, contig)));
+        }
     }
 
     /// Internal implementation of contig reading with optional conversion
